@@ -110,3 +110,40 @@ Theorem C05_schema_index_over_projected_column_refuted :
     scan kT pspec (rc_rows c) (K kT pspec (krow None None)) = {[10%N; 11%N]}.
 Proof. exact schema_index_projected_refuted. Qed.
 Print Assumptions C05_schema_index_over_projected_column_refuted.
+
+(** ... and for every reachable state: any number of batches and purges
+    (TableCache.Purge: the empty cache again), each batch applied in any order.
+    After every session that is well-formed - the batches change distinct
+    rows, fit the rows cached when they arrive and leave them unique under the
+    schema indexes - every step succeeds, the invariant holds and the cached
+    rows are the ones the session describes. *)
+From LOV Require Import Cache.IndexSession.
+
+Theorem C05_sessions_preserve_inv : forall T specs l c,
+  Inv T specs c -> schema_unique T specs (rc_rows c) -> session_ok T specs (rc_rows c) l ->
+  exists c', run_session T specs c l = COk c' /\ Inv T specs c' /\ schema_unique T specs (rc_rows c') /\
+             rc_rows c' = session_rows (rc_rows c) l.
+Proof. exact session_inv. Qed.
+Print Assumptions C05_sessions_preserve_inv.
+
+Theorem C05_sessions_from_the_empty_cache : forall T specs l,
+  session_ok T specs ∅ l ->
+  exists c', run_session T specs (rc_empty specs) l = COk c' /\ Inv T specs c' /\ rc_rows c' = session_rows ∅ l.
+Proof. exact session_from_empty. Qed.
+Print Assumptions C05_sessions_from_the_empty_cache.
+
+(** a session that runs: two rows, a hand-over of the indexed value applied taker first, a purge, one row again -
+    one row is cached at the end, found under its value and under no other *)
+Example C05_session_runs :
+  let ins u s := mkChange u None (Some (wrow s)) in
+  let upd u s s' := mkChange u (Some (wrow s)) (Some (wrow s')) in
+  let l := [SBatchOf [ins 10%N 5%N; ins 11%N 6%N] [ins 11%N 6%N; ins 10%N 5%N];
+            SBatchOf [upd 10%N 5%N 7%N; upd 11%N 6%N 5%N] [upd 11%N 6%N 5%N; upd 10%N 5%N 7%N];
+            SPurgeAll;
+            SBatchOf [ins 12%N 5%N] [ins 12%N 5%N]] in
+  match run_session wT wspecs (rc_empty wspecs) l with
+  | COk c => (bool_decide (rc_rows c = session_rows ∅ l), size (rc_rows c),
+              (fun m => (i_get m [Some (AStr 5%N)], i_get m [Some (AStr 6%N)])) <$> rc_idx c)
+  | CErr _ => (false, 0, [])
+  end = (true, 1, [({[ 12%N ]}, ∅)]).
+Proof. vm_compute. reflexivity. Qed.
